@@ -7,6 +7,7 @@ All theorems quantify over the cryptographic oracle and over every finite list o
 -/
 import Drand.Beacon.Node
 import DrandProofs.C01
+import DrandProofs.C12Cache
 
 namespace Drand.Beacon
 open Drand Drand.Chain Drand.Store
@@ -296,11 +297,24 @@ def Origin (c : Crypto) (seen : List GroupView) (sl : Nat) (addr : String) (chai
 
 def Node.origin (c : Crypto) (s : Node) : Partial → Prop := Origin c s.seen s.sigLen s.addr s.chained
 
+/-- the aggregator's cache is only ever touched by `Append` and `FlushRounds`, starting from the empty cache: it is a
+state of the cache machine of DrandProofs/C12Cache.lean, so that file's invariants apply to it -/
+def IsRun (sl : Nat) (ca : Cache) : Prop := ∃ ops, ca = Cache.run sl ops
+
+private theorem isRun_append (sl : Nat) (ca : Cache) (p : Partial) (h : IsRun sl ca) : IsRun sl (ca.append p).1 := by
+  obtain ⟨ops, rfl⟩ := h
+  exact ⟨ops ++ [.append p], by simp [Cache.run, Cache.apply, List.foldl_append]⟩
+
+private theorem isRun_flush (sl : Nat) (ca : Cache) (r : Nat) (h : IsRun sl ca) : IsRun sl (ca.flush r) := by
+  obtain ⟨ops, rfl⟩ := h
+  exact ⟨ops ++ [.flush r], by simp [Cache.run, Cache.apply, List.foldl_append]⟩
+
 structure Inv3 (c : Crypto) (sl : Nat) (ad : String) (ch : Bool) (s : Node) : Prop where
   consts : s.sigLen = sl ∧ s.addr = ad ∧ s.chained = ch
   live : s.group ∈ s.seen
   queued : ∀ p ∈ s.newPartials, s.origin c p
   cached : CInv (s.origin c) s.sigLen s.cache
+  isRun : IsRun s.sigLen s.cache
 
 variable {sl : Nat} {ad : String} {ch : Bool}
 
@@ -318,7 +332,8 @@ private theorem inv3_of_fields {c : Crypto} {s s' : Node} (h : Inv3 c sl ad ch s
     (h3 : s'.addr = s.addr) (h4 : s'.chained = s.chained) (h5 : s'.group = s.group)
     (h6 : s'.newPartials = s.newPartials) (h7 : s'.cache = s.cache) : Inv3 c sl ad ch s' := by
   have ho : s'.origin c = s.origin c := by unfold Node.origin; rw [h1, h2, h3, h4]
-  exact ⟨by rw [h2, h3, h4]; exact h.consts, by rw [h5, h1]; exact h.live, by rw [h6, ho]; exact h.queued, by rw [ho, h2, h7]; exact h.cached⟩
+  exact ⟨by rw [h2, h3, h4]; exact h.consts, by rw [h5, h1]; exact h.live, by rw [h6, ho]; exact h.queued, by rw [ho, h2, h7]; exact h.cached,
+    by rw [h2, h7]; exact h.isRun⟩
 
 /-- what the admission function established when it hands a packet over -/
 theorem processPartial_admitted (c : Crypto) (s : Node) (p : Partial) (h : (processPartial c s p).2 = .admitted) :
@@ -399,12 +414,18 @@ private theorem aggOne_inv3 (c : Crypto) (s : Node) (p : Partial) (h : Inv3 c sl
     rcases aggCheck_cache c s.chained s.group s.cache last p with he | he <;> rw [he]
     · exact h.cached
     · exact append_inv _ _ _ _ h.cached hp
+  have hrun : ∀ last, IsRun s.sigLen (aggCheck c s.chained s.group s.cache last p).1 := by
+    intro last
+    rcases aggCheck_cache c s.chained s.group s.cache last p with he | he <;> rw [he]
+    · exact h.isRun
+    · exact isRun_append _ _ _ h.isRun
   have base : ∀ (s0 : Node) (ca : Cache), s0.seen = s.seen → s0.sigLen = s.sigLen → s0.addr = s.addr →
       s0.chained = s.chained → s0.group = s.group → s0.newPartials = s.newPartials → s0.cache = ca →
-      CInv (s.origin c) s.sigLen ca → Inv3 c sl ad ch s0 := by
-    intro s0 ca h1 h2 h3 h4 h5 h6 h7 hca
+      CInv (s.origin c) s.sigLen ca → IsRun s.sigLen ca → Inv3 c sl ad ch s0 := by
+    intro s0 ca h1 h2 h3 h4 h5 h6 h7 hca hru
     have ho : s0.origin c = s.origin c := by unfold Node.origin; rw [h1, h2, h3, h4]
-    exact ⟨by rw [h2, h3, h4]; exact h.consts, by rw [h5, h1]; exact h.live, by rw [h6, ho]; exact h.queued, by rw [ho, h2, h7]; exact hca⟩
+    exact ⟨by rw [h2, h3, h4]; exact h.consts, by rw [h5, h1]; exact h.live, by rw [h6, ho]; exact h.queued, by rw [ho, h2, h7]; exact hca,
+      by rw [h2, h7]; exact hru⟩
   unfold aggOne
   simp only
   split
@@ -413,13 +434,17 @@ private theorem aggOne_inv3 (c : Crypto) (s : Node) (p : Partial) (h : Inv3 c sl
       have e := congrArg Prod.fst hck
       simp only at e
       rw [← e]; exact hcache _
+    have hru : IsRun s.sigLen cache' := by
+      have e := congrArg Prod.fst hck
+      simp only at e
+      rw [← e]; exact hrun _
     have key : ∀ (sArg : Node) (last : Beacon), Inv3 c sl ad ch sArg → ∀ s' b,
         tryAppend c sArg last ⟨rc.round, sig, rc.prev⟩ = (s', b) → Inv3 c sl ad ch s' := by
       intro sArg last hI s' b hh
       have := tryAppend_inv3 c sArg last ⟨rc.round, sig, rc.prev⟩ hI
       rw [hh] at this; exact this
     have harg : ∀ last : Beacon, Inv3 c sl ad ch ({ s with aggLast := some last, cache := cache'.flush p.round } : Node) :=
-      fun last => base _ _ rfl rfl rfl rfl rfl rfl rfl (flush_inv _ _ _ _ hca)
+      fun last => base _ _ rfl rfl rfl rfl rfl rfl rfl (flush_inv _ _ _ _ hca) (isRun_flush _ _ _ hru)
     split
     · next s' hta => exact inv3_of_fields (key _ _ (harg _) _ _ hta) rfl rfl rfl rfl rfl rfl rfl
     · next s' hta =>
@@ -431,7 +456,11 @@ private theorem aggOne_inv3 (c : Crypto) (s : Node) (p : Partial) (h : Inv3 c sl
       have e := congrArg Prod.fst hck
       simp only at e
       rw [← e]; exact hcache _
-    exact base _ _ rfl rfl rfl rfl rfl rfl rfl hca
+    have hru : IsRun s.sigLen cache' := by
+      have e := congrArg Prod.fst hck
+      simp only at e
+      rw [← e]; exact hrun _
+    exact base _ _ rfl rfl rfl rfl rfl rfl rfl hca hru
 
 private theorem tryNode_inv3 (c : Crypto) (upTo : Nat) (pkts : List SyncPkt) :
     ∀ s : Node, Inv3 c sl ad ch s → Inv3 c sl ad ch (tryNode c s upTo pkts).1 := by
@@ -459,14 +488,14 @@ theorem step_inv3 (c : Crypto) (s : Node) (ev : Ev) (h : Inv3 c sl ad ch s) : In
   | tick n => exact inv3_of_fields h rfl rfl rfl rfl rfl rfl rfl
   | setInfo g =>
     show Inv3 c sl ad ch { s with group := g, seen := s.seen ++ [g] }
-    refine ⟨h.consts, List.mem_append_right _ (List.mem_singleton.2 rfl), ?_, ?_⟩
+    refine ⟨h.consts, List.mem_append_right _ (List.mem_singleton.2 rfl), ?_, ?_, h.isRun⟩
     · intro p hp; exact origin_mono c _ g _ _ _ p (h.queued p hp)
     · exact cinv_mono _ _ (fun p hp => origin_mono c _ g _ _ _ p hp) h.cached
   | deliver p =>
     show Inv3 c sl ad ch (processPartial c s p).1
     rcases processPartial_cases c s p with ⟨_, he⟩ | ⟨ha, he⟩ <;> rw [he]
     · exact h
-    · refine ⟨h.consts, h.live, ?_, h.cached⟩
+    · refine ⟨h.consts, h.live, ?_, h.cached, h.isRun⟩
       intro q hq
       rcases List.mem_append.1 hq with hq | hq
       · exact h.queued q hq
@@ -475,7 +504,7 @@ theorem step_inv3 (c : Crypto) (s : Node) (ev : Ev) (h : Inv3 c sl ad ch s) : In
         exact Or.inl ⟨s.group, h.live, idx, na, h1, h2, h3, h4, h5⟩
   | own cur =>
     show Inv3 c sl ad ch { s with newPartials := s.newPartials ++ [ownPartial c s cur] }
-    refine ⟨h.consts, h.live, ?_, h.cached⟩
+    refine ⟨h.consts, h.live, ?_, h.cached, h.isRun⟩
     intro q hq
     rcases List.mem_append.1 hq with hq | hq
     · exact h.queued q hq
@@ -489,14 +518,14 @@ theorem step_inv3 (c : Crypto) (s : Node) (ev : Ev) (h : Inv3 c sl ad ch s) : In
     · next p rest hq =>
       have hp : s.origin c p := h.queued p (by rw [hq]; exact List.mem_cons_self)
       have h' : Inv3 c sl ad ch { s with newPartials := rest } :=
-        ⟨h.consts, h.live, fun q hq' => h.queued q (by rw [hq]; exact List.mem_cons_of_mem _ hq'), h.cached⟩
+        ⟨h.consts, h.live, fun q hq' => h.queued q (by rw [hq]; exact List.mem_cons_of_mem _ hq'), h.cached, h.isRun⟩
       exact aggOne_inv3 c _ p h' hp
   | aggStored =>
     show Inv3 c sl ad ch (aggStored s)
     unfold aggStored
     split
     · exact h
-    · exact ⟨h.consts, h.live, h.queued, flush_inv _ _ _ _ h.cached⟩
+    · exact ⟨h.consts, h.live, h.queued, flush_inv _ _ _ _ h.cached, isRun_flush _ _ _ h.isRun⟩
   | swapStored =>
     show Inv3 c sl ad ch (match s.storedQ with | a :: b :: q => { s with storedQ := b :: a :: q } | _ => s)
     split
@@ -528,7 +557,8 @@ theorem run_inv3 (c : Crypto) (evs : List Ev) : ∀ s : Node, Inv3 c sl ad ch s 
 
 theorem init_inv3 (c : Crypto) (chained : Bool) (sigLen : Nat) (addr : String) (key : Nat) (g : GroupView) (seed : Bytes) :
     Inv3 c sigLen addr chained (Node.init chained sigLen addr key g seed) :=
-  ⟨⟨rfl, rfl, rfl⟩, List.mem_singleton.2 rfl, fun p hp => (by cases hp), ⟨rfl, fun id rc hrc => (by simp [Node.init, Cache.empty, aget] at hrc)⟩⟩
+  ⟨⟨rfl, rfl, rfl⟩, List.mem_singleton.2 rfl, fun p hp => (by cases hp), ⟨rfl, fun id rc hrc => (by simp [Node.init, Cache.empty, aget] at hrc)⟩,
+    ⟨[], rfl⟩⟩
 
 /-! ### the theorems -/
 
@@ -551,6 +581,19 @@ theorem c03_admitted (c : Crypto) (chained : Bool) (sigLen : Nat) (addr : String
   have := hi.cached.2 id rc hrc
   rw [ho, h1] at this
   exact this
+
+/-- **C03 (distinct)** at node level: in every reachable state, within every round cache each signer index occurs at
+most once — `roundCache.Len()` counts distinct signers (`c03_distinct` of the cache machine applied to the node's
+cache, which is a state of that machine) -/
+theorem c03_len_counts_distinct (c : Crypto) (chained : Bool) (sigLen : Nat) (addr : String) (key : Nat) (g : GroupView)
+    (seed : Bytes) (evs : List Ev) :
+    let s := Node.run c (Node.init chained sigLen addr key g seed) evs
+    ∀ id rc, aget id s.cache.rounds = some rc → ((rc.sigs.map (·.1)).Nodup ∧ CacheInv s.cache) := by
+  intro s id rc hrc
+  have hi : Inv3 c sigLen addr chained s := run_inv3 c evs _ (init_inv3 c chained sigLen addr key g seed)
+  obtain ⟨ops, hops⟩ := hi.isRun
+  rw [hops] at hrc
+  exact ⟨c03_distinct _ ops id rc hrc, by rw [hops]; exact c12_cache_inv _ ops⟩
 
 /-- what is assumed of `ThresholdScheme.Recover`: if it returns a signature then at least `t` of the supplied partials
 verify under the supplied polynomial for the supplied message, at pairwise distinct indices (kyber: it keeps the first
@@ -651,7 +694,7 @@ theorem c03_threshold_reachable (c : Crypto) (chained : Bool) (sigLen : Nat) (ad
   have hi : Inv3 c sigLen addr chained s := run_inv3 c evs _ (init_inv3 c chained sigLen addr key g seed)
   have hp : s.origin c p := hi.queued p (by rw [hq]; exact List.mem_cons_self)
   have h' : Inv3 c sigLen addr chained { s with newPartials := rest } :=
-    ⟨hi.consts, hi.live, fun q hq' => hi.queued q (by rw [hq]; exact List.mem_cons_of_mem _ hq'), hi.cached⟩
+    ⟨hi.consts, hi.live, fun q hq' => hi.queued q (by rw [hq]; exact List.mem_cons_of_mem _ hq'), hi.cached, hi.isRun⟩
   have he : aggPartial c s = aggOne c { s with newPartials := rest } p := by unfold aggPartial; rw [hq]
   rw [he] at hres
   exact c03_threshold c hR _ h' p hp nb hres
